@@ -455,6 +455,71 @@ def move_races(ctx):
     ctx.extra["move_races"] = n
 
 
+def expunge_races(ctx):
+    """a UID command of one session queued while another session's EXPUNGE removes lower messages: it is applied to
+    the messages its UIDs denote when it runs, and answers with those UIDs"""
+    n = 0
+    for cmd_a, want_uid in (("t UID STORE 4 +FLAGS (\\Flagged)", 4), ("t UID FETCH 5 (FLAGS)", 5), ("t UID STORE 3:4 +FLAGS (kw1)", None),
+                            ("t UID COPY 4 box2", 4), ("t UID FETCH 3:* (FLAGS)", None)):
+        for rep in range(8 if ctx.thorough else 3):
+            seed = ctx.rng.randrange(1 << 30)
+            w = W.World(seed=seed)
+            try:
+                w.session("A"); w.session("B")
+                w.cmd("A", "t CREATE box1"); w.cmd("A", "t CREATE box2")
+                for i in range(5):
+                    lit = W.make_msg(i + 1)
+                    w.cmd("A", f"t APPEND box1 {{{len(lit)}}}\r\n" + lit.decode())
+                w.cmd("A", "t SELECT box1"); w.cmd("B", "t SELECT box1")
+                w.cmd("B", "t STORE 1:2 +FLAGS.SILENT (\\Deleted)")
+                w.cmd("A", "t NOOP")
+                w.drain("A"); w.drain("B")
+                w.set_jitter(random.Random(seed + 11))
+                delay = random.Random(seed).choice([0, 0.0003, 0.0005, 0.001, 0.002, 0.004])
+
+                async def later(sess, text, d):
+                    await asyncio.sleep(d)
+                    return await w.acmd(sess, text)
+
+                async def batch():
+                    return await asyncio.wait_for(asyncio.gather(later("B", "t EXPUNGE", 0), later("A", cmd_a, delay),
+                                                                 return_exceptions=True), 600)
+                outs = w.loop.run_until_complete(batch())
+                w.set_jitter(None)
+                n += 1
+                ctx.count({"expunge_race": cmd_a, "seed": seed}, nontrivial=True)
+                oa = outs[1]
+                if isinstance(oa, Exception):
+                    ctx.violation("a UID command racing an EXPUNGE raised", {"command": cmd_a, "seed": seed, "error": repr(oa)})
+                    continue
+                mb = w.server.active_mailboxes["box1"]
+                # what the answer says: every "* n FETCH (... UID u)" line pairs a position with the UID at that position NOW
+                # (the EXPUNGEs were sent first for a UID command) and, for a single UID, that UID
+                for line in oa:
+                    m = re.match(rb"^\* (\d+) FETCH \(.*UID (\d+)", line)
+                    if m and want_uid is not None and int(m.group(2)) != want_uid:
+                        ctx.violation("a UID command queued behind another session's EXPUNGE was applied to a message other than "
+                                      "the one its UID denotes", {"command": cmd_a, "seed": seed, "sent_to_A": [repr(x[:90]) for x in oa]})
+                        break
+                if "STORE 4" in cmd_a:
+                    flagged = sorted(mb.uids[mb.msg_keys.index(k)] for k in mb.sequences.get("flagged", []) if k in mb.msg_keys)
+                    if flagged != [4]:
+                        ctx.violation("UID STORE 4 racing an EXPUNGE of messages 1:2 flagged other messages",
+                                      {"flagged_uids": flagged, "seed": seed, "sent_to_A": [repr(x[:90]) for x in oa]})
+                if "kw1" in cmd_a:
+                    kw = sorted(mb.uids[mb.msg_keys.index(k)] for k in mb.sequences.get("kw1", []) if k in mb.msg_keys)
+                    if kw != [3, 4]:
+                        ctx.violation("UID STORE 3:4 racing an EXPUNGE of messages 1:2 changed other messages",
+                                      {"kw1_uids": kw, "seed": seed, "sent_to_A": [repr(x[:90]) for x in oa]})
+                if "COPY" in cmd_a:
+                    ok = [x for x in oa if b"COPYUID" in x]
+                    if ok and not re.search(rb"COPYUID \d+ 4 ", ok[0]):
+                        ctx.violation("UID COPY 4 racing an EXPUNGE copied another message", {"reply": repr(ok[0]), "seed": seed})
+            finally:
+                w.close()
+    ctx.extra["expunge_races"] = n
+
+
 def run(ctx):
     ctx.coverage["rule"] = ("would_conflict: every (kind, set) command against every running list of <=1 commands and sampled "
                             "lists of 2-3, both Deleted states; schedules: a generated history of 6-22 commands, then one "
@@ -473,6 +538,7 @@ def run(ctx):
     schedule_level(ctx)
     namespace_races(ctx)
     move_races(ctx)
+    expunge_races(ctx)
     ctx.assume += ["PARTIAL: fairness of asyncio and termination of each command body are assumptions; threads are modelled as "
                    "completion events; the schedule space is sampled (seeded jitter on every I/O completion), not enumerated",
                    "the footprints of Model/Sched.v are declared, not derived from the command bodies (EXPUNGE/CLOSE with nothing "
